@@ -163,7 +163,7 @@ def short_circuit_translator(element: elm.LabeledLine, nodes: tuple[str, ...]) -
 def switch_translator(element: elm.Switch, nodes: tuple[str, ...]) -> ccp.Component | None:
     if element.state == element.state.OPEN:
         return ccp.resistor(nodes=(nodes[0], nodes[1]), id=element.name, R=inf)
-    return ccp.resistor(nodes=(nodes[0], nodes[1]), id=element.name, R=1e-12)
+    return ccp.resistor(nodes=(nodes[0], nodes[1]), id=element.name, R=0) # an ideal connection; 1e-12 Ohm next to ordinary resistances loses a dozen digits in the nodal matrix
 
 def none_translator(*_) -> None:
     return None
